@@ -432,10 +432,23 @@ func TestReplayGraph(t *testing.T) {
 	}
 	w.visited[g.Init] = true
 	maxViol := 25
+	afterFault := os.Getenv("VERIF_AFTER_FAULT") != ""
 	for res.NViol() < maxViol && res.Counters["disagreements"] < 400 {
 		ei := w.next()
 		if ei >= 0 {
-			w.step(ei)
+			ok := w.step(ei)
+			// a failed save of one secret, then at once a successful save of ANOTHER one: what the failed call left in
+			// memory must not ride along (the file is compared after the second call)
+			if e := g.Edges[ei]; ok && afterFault && e.Op.Fault == "save" && e.F == e.T {
+				for _, xi := range g.out[w.cur] {
+					x := g.Edges[xi]
+					if x.Req == nil && (x.Op.Fault == "none" || x.Op.Fault == "") && x.Op.Saved && x.Op.Name != e.Op.Name && x.F != x.T {
+						w.res.Add("success_right_after_failed_save", 1)
+						w.step(xi)
+						break
+					}
+				}
+			}
 			continue
 		}
 		path := w.bfs(w.cur, func(x int) bool { return w.pending[x] > 0 })
